@@ -33,6 +33,8 @@ pub fn eval(sc: &Scenario) -> CaseResult {
 
 pub fn gen(tier: Tier) -> BoxedStrategy<Scenario> {
     let mut p = GenParams::default();
+    // tick rates other than the default 60 fps (the builder's with_fps follows the game's tick rate)
+    p.fps = vec![60, 60, 60, 30, 120, 144];
     p.windows = vec![(4, 0), (4, 1), (2, 2), (2, 3), (2, 4), (1, 5), (1, 6), (1, 7), (2, 8), (1, 9), (1, 10), (1, 11), (2, 12)];
     p.ticks = tier.pick((200, 900), (1000, 3000));
     p.outages = 0;
